@@ -20,7 +20,7 @@ ASSUMPTIONS = ["exactness relies on pc_n/varpc_n accepting object arrays of Frac
                "count vectors are bounded so that int64 cubes do not overflow (N <= 10^6)"]
 EXHAUSTIVE = {"quick": ["every count vector with N=2..12, K<=4 (zeros allowed)", "two-sample: every pair of count vectors K<=3, N1,N2<=4"],
               "thorough": ["every count vector with N=2..22, K<=5", "two-sample: every pair K<=3, N1,N2<=6"]}
-REQUIRE = {"sample_buffer_reused": 1182, "vectors_checked": 1190, "varpc_exact_identities": 1000, "pc_exact_identities": 1190, "stdpc_n_checked": 300,
+REQUIRE = {"two_sample_categoricals": 148, "sample_as_table_with_missing_cells": 1182, "sample_buffer_reused": 1182, "vectors_checked": 1190, "varpc_exact_identities": 1000, "pc_exact_identities": 1190, "stdpc_n_checked": 300,
            "stdpc_sample_checked": 100, "expectation_identities_pc": 12, "expectation_identities_var": 8,
            "expectation_identities_two_sample": 4, "two_sample_vectors": 200, "two_sample_tables": 50, "stdpc_joint_checked": 6, "large_vectors": 7, "big_samples": 2, "pc_n_narrow_dtype_checked": 100, "count_array_reused": 100}
 SHARDS = {"quick": 6, "thorough": 16}
